@@ -390,10 +390,28 @@ func genC19(g *Gen, tier string) *Case {
 			if k == 0 {
 				imp = TL(TNi(opImport), TNi(inst+1), TNi(e))
 			}
-			ops = append(ops, TL(TNi(opExport), TNi(inst), TNi(e)), imp)
+			ops = append(ops, TL(TNi(opExport), TNi(inst), TNi(e)))
+			if g.Chance(0.5) { // the document is a snapshot: what the exporter does afterwards is not in it
+				for q, nq := 0, 1+g.Intn(3); q < nq; q++ {
+					ops = append(ops, sg.extra(g, inst, pool)...)
+				}
+			}
+			ops = append(ops, imp)
 			ops = append(ops, sg.queries(g, inst, pool)...)
 			ops = append(ops, sg.queries(g, inst+1, pool)...)
-			if g.Chance(0.6) {
+			if g.Chance(0.35) {
+				// a second structure imports the same document: the two copies are separate structures
+				ops3, _ := sg.build(g, inst+2, tier)
+				imp2 := TL(TNi(opImport), TNi(inst+2), TNi(e), TNi(1))
+				if k == 0 {
+					imp2 = TL(TNi(opImport), TNi(inst+2), TNi(e))
+				}
+				ops = append(ops, ops3...)
+				ops = append(ops, imp2)
+				ops = append(ops, sg.extra(g, inst+2, pool)...)
+				ops = append(ops, sg.queries(g, inst+1, pool)...)
+				ops = append(ops, sg.queries(g, inst+2, pool)...)
+			} else if g.Chance(0.6) {
 				// re-attach to the copy and update it through the new handle: the exporter must not move
 				ops = append(ops, TL(TNi(opAttach), TNi(inst+2), TNi(inst+1)))
 				ops = append(ops, sg.extra(g, inst+2, pool)...)
